@@ -22,17 +22,74 @@ SIZES = {"quick": 6, "thorough": 300}
 
 def plan(tier, seed):
     cs = sorted(data.countries())
-    return [{"countries": c, "tier": tier, "_name": f"c-{i}"} for i, c in enumerate(gen.chunk(cs, 16 if tier == "quick" else 63))]
+    sh = [{"countries": c, "tier": tier, "_name": f"c-{i}"} for i, c in enumerate(gen.chunk(cs, 16 if tier == "quick" else 63))]
+    sh += [{"kind": "threads", "part": i, "tier": tier, "_name": f"threads-{i}"} for i in range(2 if tier == "quick" else 8)]
+    return sh
 
 
 def kind(c):
     return "d" if c in R.DIGITS else "l" if c in R.UPPER else None
 
 
+def run_threads(shard, mon, S, table):
+    """The same guarantee while several threads validate: valid bases and their mutants interleaved."""
+    import sys  # noqa: PLC0415
+    import threading  # noqa: PLC0415
+
+    rng = env.rng("C03", "threads", shard["part"])
+    cs = sorted(table)
+    work = []
+    for cc in rng.sample(cs, 12):
+        b = R.make_iban(cc, gen.random_bban(table[cc], rng, "letters"))
+        muts = []
+        for _ in range(6):
+            p = rng.randrange(2, len(b))
+            pool = R.DIGITS if b[p] in R.DIGITS else R.UPPER
+            ch = rng.choice([c for c in pool if c != b[p]])
+            muts.append(b[:p] + ch + b[p + 1 :])
+        work.append((b, muts))
+    accepted, wrongly_rejected = [], []
+    old = sys.getswitchinterval()
+    sys.setswitchinterval(1e-6)
+    rounds = 40 if shard["tier"] == "quick" else 1500
+    n_threads = 8
+    counts = [0] * n_threads
+
+    def body(t):
+        for r in range(rounds):
+            b, muts = work[(t + r) % len(work)]
+            if not observe(S.IBAN, b).ok:
+                wrongly_rejected.append(b)
+            for m in muts:
+                for _ in range(2):
+                    counts[t] += 1
+                    if observe(S.IBAN, m).ok:
+                        accepted.append((b, m))
+
+    ts = [threading.Thread(target=body, args=(t,), daemon=True) for t in range(n_threads)]
+    for t in ts:
+        t.start()
+    for t in ts:
+        t.join(900)
+    sys.setswitchinterval(old)
+    mon.ev(sum(counts))
+    mon.tally("threaded_mutant_validations", sum(counts))
+    for i, (b, muts) in enumerate(work):
+        for m in muts:
+            mon.distinct(("thr", m))
+    for b, m in accepted[:3]:
+        mon.viol("mutant_accepted_under_threads", {"base": b, "mutant": m, "threads": n_threads}, "rejected", "accepted")
+    for b in wrongly_rejected[:3]:
+        mon.viol("valid_base_rejected_under_threads", {"base": b, "threads": n_threads}, "accepted", "rejected")
+
+
 def run_shard(shard, out_base):
     mon = Mon("C03")
     S = judge.lib()
     table = data.countries()
+    if shard.get("kind") == "threads":
+        run_threads(shard, mon, S, table)
+        return mon.result(out_base)
     for cc in shard["countries"]:
         spec = table[cc]
         rng = env.rng("C03", cc)
@@ -64,6 +121,12 @@ def run_shard(shard, out_base):
                     mon.tally("subst")
                     if o.ok:
                         mon.viol("substitution_accepted:" + ("checkdigits" if p < 4 else k), {"base": b, "mutant": t, "pos": p}, "rejected", o.brief())
+                    if ch == pool[(pool.index(b[p]) + 1) % len(pool)]:
+                        # the same mutant handed over as an unvalidated IBAN object (still a text)
+                        ow = observe(lambda t=t: S.IBAN(S.IBAN(t, allow_invalid=True)))
+                        mon.tally("mutants_as_objects")
+                        if ow.ok:
+                            mon.viol("substitution_accepted:passed_as_unvalidated_object", {"base": b, "mutant": t, "pos": p}, "rejected", ow.brief())
                     elif not judge.is_lib_exc(o.exc):
                         mon.viol(f"escape:{o.exc_name}", {"base": b, "mutant": t}, "library error", o.brief())
                 if p + 1 < len(b) and b[p] != b[p + 1] and kind(b[p]) == kind(b[p + 1]):
